@@ -280,6 +280,18 @@ func zvC21Check(r *vh.Run, c zvC21Case) {
 		}
 	} else {
 		r.Count("wellformed_header_cases", 1)
+		// a complete OPEN or UPDATE with a well-formed header that makes the session close its connection is being
+		// rejected: whatever is wrong with it (RFC 4271 6.2 / 6.3, or its arrival in this state, 6.6), the peer is told
+		// with a NOTIFICATION first. (A received NOTIFICATION is answered with none; which code and subcode an OPEN
+		// deserves is C22's subject, an UPDATE's attributes are swept below.)
+		l := int(binary.BigEndian.Uint16(b[16:]))
+		if len(b) == l && (b[18] == 1 || b[18] == 2) && res.Closed && c.Kind != "pair" {
+			r.Count("rejected_open_or_update", 1)
+			if len(res.Notifs) == 0 {
+				r.Violation(vh.Sig("clause", "closed-without-notification", "type", fmt.Sprint(b[18]), "state", c.State), c,
+					"a complete message of type %d with a well-formed header made the session close the connection in %s without sending a NOTIFICATION", b[18], c.State)
+			}
+		}
 	}
 	if c.Kind == "attr" || c.Kind == "mpreach" {
 		r.Count("attribute_sweep_cases", 1)
